@@ -404,7 +404,30 @@ def check_match_weak (ctx, m, rng):
       # Inside a flow_mod the library deliberately rewrites the wildcard bits
       # of fields whose prerequisites the match does not meet (and does so
       # asymmetrically for dl_type 0x86dd); for prerequisite-violating
-      # matches only framing is demanded here.
+      # matches only framing is demanded there.  What must hold for every
+      # other dl_type is that encoder and decoder agree: decoding what was
+      # just decoded-and-encoded changes nothing any more.
+      if getattr(m, "dl_type", None) == 0x86dd: continue
+      try:
+        m3 = of.ofp_match()
+        m3.unpack(b2, 0, flow_mod=True)
+        b3 = m3.pack(flow_mod=True)
+      except Exception as e:
+        ctx.fire("ofp_match", "second decode raises %s (flow_mod form)" %
+                 type(e).__name__, repr(e)); continue
+      ctx.rep.count("flow_mod_match_fixpoints")
+      if b2 != b:
+        # (the encoder has already normalised the inapplicable fields in b:
+        #  decoding and encoding once more must leave it alone)
+        i = first_diff(b, b2)
+        ctx.fire("ofp_match", "encoder and decoder disagree (flow_mod form): "
+                 "pack(unpack(pack(m))) != pack(m)",
+                 "byte %d: %s vs %s" % (i, hexs(b), hexs(b2)))
+      elif b3 != b2:
+        i = first_diff(b2, b3)
+        ctx.fire("ofp_match", "encoder and decoder disagree (flow_mod form): "
+                 "pack(unpack(x)) != x for an x the library itself produced",
+                 "byte %d: %s vs %s" % (i, hexs(b2), hexs(b3)))
       continue
     if b2 != b:
       i = first_diff(b, b2)
